@@ -110,6 +110,12 @@ CHECKS = {
         text="TLC proves AtMostOne, NeverStealLive, HolderOwnsLock, LiveResidentKept and (fair) Usable for 3 contenders from all six leftover states with releases and a deadline that may expire at any retry when a cleanup's rename is atomic with its check, and finds the counterexamples of the code's check-then-rename sequences; every complete behaviour of 2 contenders of the as-implemented model (43 618; stratified sample in the quick tier; random 3-contender behaviours in the thorough tier) is forced on real threads against a real store directory (dead owner = pid of a reaped child, live resident = this process with a reachable endpoint): after each step lock.json and meta.json are read back and compared with the prediction, takeovers of a live owner's file and simultaneous guards are observed directly; a takeover counts as the recorded finding only where the as-implemented model predicts it at that step.",
         note="Contenders are threads (same pid); crashes in the middle of a cleanup and the CLI's own loop are not forced; three recorded findings (D9a-c).",
         ref="4 C18"),
+    "C19": dict(
+        engine="SecretFlow",
+        technique="TLA+ spec SecretFlow (configuration space of the secret supply: three layers, inline / env reference / unresolvable reference, env fall-backs, provider selection; the code's resolution, the documented precedence, the doctor report, the allowed flow) checked with TLC on all 24 000 configurations; configurations TLC enumerates are materialised with canary values and run through the real router against a scripted provider; all persisted bytes, responses and process output searched; doctor report and the key the provider received compared with the model",
+        text="TLC proves that the resolution as coded equals the documented precedence for every configuration and prints each with the effective key, the reported source and header names; a stratified sample (every selection mode x source x env key x fall-back x header count; 6 run outcomes incl. an HTTP error echoing the request body, a transport error, invalid SSE, a failing tool; request dumping on and off) is run for real: every file under the data directory, the workspace, the home and config directories except the config files themselves, the doctor answer, the replayed event stream and the process's stderr are searched for every canary (effective or not) in raw, base64, hex, percent-encoded and inner-part form; /config/doctor must report exactly has_api_key / api_key_source / header names of the model and nothing else; the provider must have received exactly the predicted Authorization and secret headers.",
+        note="Information flow is observed with canaries, not proved; commands that print their own environment and providers that echo request headers are outside the property.",
+        ref="4 C19"),
     "C20": dict(
         engine="Surface",
         technique="TLA+ spec Surface (UI state as a fold over arbitrary frame sequences: bounded window, lookup by seq, tool summaries, bounded output) checked with TLC; every generated sequence folded by the real TuiState/FrameStore and rendered on a TestBackend at all widths; observations compared with the model",
